@@ -72,7 +72,7 @@ RULE = ('Per case: a generated tree of 2 top-level packages / 11 modules (siblin
         '1-file layouts, plus one name for two modules in two files, and a plain dotted import '
         'whose top-level name is bound to another module in another file, and fn / wfn in '
         'both orders of first use, and same-named leaf modules of sibling sub-packages by plain '
-        'imports in both orders, `import a.b as b`, and an alias re-bound inside one file; 94 cases) and every error '
+        'imports in both orders, `import a.b as b`, an alias re-bound inside one file, and decorator-registered objects x parse variant; 106 cases) and every error '
         'class x position (root / included / second root) x variant (108 cases).')
 ASSUMPTIONS = [
     '`from X import Y` is generated only where Y is a module or package (Gin implements every '
@@ -90,6 +90,14 @@ ASSUMPTIONS = [
     'class of a first-used method) registers a name; reaching an already registered object '
     'through a colliding spelling is not in that class and stays generated.',
     'Reference targets are functions and classes (never cons), so evaluation terminates.',
+    'Every generated module also holds objects registered by decorators at import time under '
+    'Gin names that differ from their attribute paths (@gin.configurable("renamed_dfn") dfn, '
+    '@gin.configurable("RenamedDeco") Deco, @gin.register R with a @gin.register method rm, '
+    '@gin.configurable nested Outer.Inner); the files configure them by Python path. They are '
+    'never registered by the config\'s spelling, so they are exempt from the alias_collision / '
+    'method_respelled analyses.',
+    'A root may be handed to gin.parse_config as a LIST with one entry per statement (documented '
+    'form); it must behave like the newline-joined text (same model, same oracle).',
     'Identity of a configured/delivered object is observed through what calling it returns '
     '(every generated body reports its own module and qualified name) and isinstance against '
     'the class fetched from sys.modules; __name__/__qualname__ of Gin\'s wrappers are not '
@@ -149,8 +157,10 @@ LEVEL_NOTE = ('Trusted: CPython import semantics in the oracle child, the 30-lin
 
 ENABLE = 'from __gin__ import dynamic_registration'
 ALIASES = ['mm', 'nn', 'm1', 'sub', '@top']   # '@top': the first top-level package's own name
-LEAF_DEFS = ['fn', 'gn', 'K', 'K.meth', 'K.other', 'K.N', 'K.N.nm', 'cons', 'K.fn', 'wfn']
-REF_DEFS = ['fn', 'gn', 'K', 'K.N', 'wfn']
+LEAF_DEFS = ['fn', 'gn', 'K', 'K.meth', 'K.other', 'K.N', 'K.N.nm', 'cons', 'K.fn', 'wfn',
+             'dfn', 'Deco', 'R', 'R.rm', 'Outer.Inner']
+REF_DEFS = ['fn', 'gn', 'K', 'K.N', 'wfn', 'dfn', 'Deco', 'R', 'Outer.Inner']
+DECORATED = ('dfn', 'Deco', 'R', 'Outer')     # first qualname component: never registered dynamically
 ERRORS = {
     'name-other-file': 'NameError',
     'gin-bound': 'ValueError',
@@ -221,6 +231,40 @@ class K:
 
 def cons(a=None, b=None):
   return {'id': _ID + ':cons', 'a': a, 'b': b}
+
+
+# Registered by DECORATORS when the module is imported (not by the config's import), under Gin
+# names that differ from their attribute paths: custom names, a registered method, a nested class.
+@gin.configurable('renamed_dfn')
+def dfn(x='dx', y='dy'):
+  return {'id': _ID + ':dfn', 'x': x, 'y': y}
+
+
+@gin.configurable('RenamedDeco')
+class Deco:
+
+  def __init__(self, x='dx', y='dy'):
+    self.got = {'id': _ID + ':Deco', 'x': x, 'y': y}
+
+
+@gin.register
+class R:
+
+  def __init__(self, x='dx', y='dy'):
+    self.got = {'id': _ID + ':R', 'x': x, 'y': y}
+
+  @gin.register
+  def rm(self, x='dx', y='dy'):
+    return {'id': _ID + ':R.rm', 'x': x, 'y': y}
+
+
+class Outer:
+
+  @gin.configurable
+  class Inner:
+
+    def __init__(self, x='dx', y='dy'):
+      self.got = {'id': _ID + ':Outer.Inner', 'x': x, 'y': y}
 '''
 _GN = '''def gn(x='dx', y='dy'):
   return {'id': _ID + ':gn', 'x': x, 'y': y}
@@ -235,7 +279,7 @@ def _write_tree(root, names, pkg):
   sources = {}
   for i, name in enumerate(names):
     is_pkg = i in PACKAGES
-    src = 'import functools\n_ID = __name__\n' + _BODY % {'gn': '' if is_pkg else _GN}
+    src = 'import functools\nimport gin\n_ID = __name__\n' + _BODY % {'gn': '' if is_pkg else _GN}
     if i == 0:
       if init[0]:
         src += f'\nfrom {a} import m1, m2, sub, sib\n'
@@ -286,6 +330,11 @@ def _is_class(objid):
 
 def _class_of(objid):
   return objid.rsplit('.', 1)[0]
+
+
+def _decorated(objid):
+  """Registered by a decorator at import time: the config's spelling never (re-)registers it."""
+  return objid.split(':')[1].split('.')[0] in DECORATED
 
 
 def _ours(name, tops):
@@ -370,7 +419,7 @@ def _norm(v, tops, depth=0):
     except Exception:  # pylint: disable=broad-except
       orig = False
     d = {'is_orig': orig, 'got': _norm(got, tops, depth + 1)}
-    for m in ('meth', 'other', 'fn', 'nm'):
+    for m in ('meth', 'other', 'fn', 'nm', 'rm'):
       if hasattr(v, m):
         d[m] = _norm(getattr(v, m)(), tops, depth + 1)
     return d
@@ -406,7 +455,7 @@ def _phase1(p):
   sys.path.insert(0, p['root'])
   for i, (mode, arg) in enumerate(p['roots']):
     try:
-      if mode == 'str':
+      if mode in ('str', 'list'):
         gin.parse_config(arg)
       else:
         gin.parse_config_file(arg)
@@ -601,7 +650,7 @@ def _collisions(files, order):
     if s['kind'] == 'r':
       uses.insert(0, (s['tobjid'], s['tpath']))
     for objid, path in uses:
-      if objid in seen:
+      if objid in seen or _decorated(objid):
         continue
       seen.add(objid)
       imp = seg['src'][path.split('.')[0]]
@@ -635,6 +684,8 @@ def _respelled(files, order):
     if s['kind'] == 'r':
       uses.insert(0, (s['tobjid'], s['tpath'], True))    # the value is built first
     for objid, path, is_ref in uses:
+      if _decorated(objid):
+        continue
       if _is_method(objid):
         cls = _class_of(objid)
         r_m = _regname(info, path.rsplit('.', 1)[0])
@@ -785,7 +836,8 @@ def _expect_inst(model, objid):
   d = {'is_orig': True,
        'got': {'id': objid, 'x': _expect_val(model, objid, 'x'),
                'y': _expect_val(model, objid, 'y')}}
-  methods = ('meth', 'other', 'fn') if objid.endswith(':K') else ('nm',)
+  methods = {'K': ('meth', 'other', 'fn'), 'K.N': ('nm',), 'R': ('rm',)}.get(
+      objid.split(':')[1], ())
   for m in methods:
     d[m] = _expect_call(model, objid + '.' + m)
   return d
@@ -1058,7 +1110,8 @@ def _check(case, root):
   if len(roots) > 1:
     labels.add('multi-root')
   for r in roots:
-    labels.add('root:str' if case['files'][r]['str'] else 'root:file')
+    if not case['files'][r].get('aslist'):
+      labels.add('root:str' if case['files'][r]['str'] else 'root:file')
   form_names = ['import', 'import-as', 'from', 'from-as']
   bound_mods = {}
   mod_spellings = {}
@@ -1080,6 +1133,10 @@ def _check(case, root):
     labels.add('nested-class')
   if any(_is_method(o) and ':K.N.' in o for o in used_objs):
     labels.add('nested-method')
+  if any(_decorated(o) for o in used_objs):
+    labels.add('decorator-registered')
+  if any(_decorated(o) and (_is_method(o) or '.' in o.split(':')[1]) for o in used_objs):
+    labels.add('decorator-registered:method-or-nested')
   if method_after_ref:
     labels.add('method-after-reference')
   if method_after_ref_other_file:
@@ -1201,7 +1258,12 @@ def _drive(ctx):
   # ---- drive Gin
   root_args = []
   for r in roots:
-    if case['files'][r]['str']:
+    if case['files'][r].get('aslist'):
+      # "a list of individual parameter binding strings": one entry per statement (a block with
+      # its members is one entry); must behave like the newline-joined text
+      root_args.append(('list', texts[r][0] + texts[r][1]))
+      labels.add('root:list')
+    elif case['files'][r]['str']:
       with open(paths[r]) as f:
         root_args.append(('str', f.read()))
     else:
@@ -1326,11 +1388,11 @@ def _case(draw):
   mod_i = st.just(focus) | st.integers(0, 10)
   imp = st.tuples(mod_i, st.integers(0, 3), _alias_i).map(list)
   imp_i = st.just(0) | st.integers(0, 4)
-  def_i = st.sampled_from([0, 0, 1, 2, 2, 3, 3, 3, 4, 5, 6, 7, 8, 9, 9])
+  def_i = st.sampled_from([0, 0, 1, 2, 2, 3, 3, 3, 4, 5, 6, 7, 8, 9, 9, 10, 11, 12, 13, 13, 14])
   bind = st.tuples(st.just('b'), imp_i, def_i, _small, st.integers(0, 1), st.integers(0, 999),
                    st.sampled_from([0, 0, 0, 1])).map(list)
   ref = st.tuples(st.just('r'), imp_i, _small, st.integers(0, 1), imp_i,
-                  st.sampled_from([0, 1, 2, 2, 2, 3, 4]), _small,
+                  st.sampled_from([0, 1, 2, 2, 2, 3, 4, 5, 6, 7, 8]), _small,
                   st.sampled_from([1, 1, 0])).map(list)
   stmt = st.one_of(bind, bind, ref)
   nfiles = draw(st.sampled_from([1, 2, 2, 3, 3, 4]))
@@ -1345,7 +1407,8 @@ def _case(draw):
       late = [draw(st.integers(0, 3)), draw(mod_i), draw(st.integers(0, 1)), draw(_small)]
     files.append({'parent': parent, 'at': draw(_small), 'str': draw(st.booleans()),
                   'imports': draw(st.lists(imp, min_size=1, max_size=4)),
-                  'stmts': draw(st.lists(stmt, min_size=1, max_size=6)), 'late': late})
+                  'stmts': draw(st.lists(stmt, min_size=1, max_size=6)), 'late': late,
+                  'aslist': bool(draw(st.sampled_from([0, 0, 0, 1])))})
   error = None
   if draw(st.sampled_from([0, 0, 0, 0, 0, 0, 0, 1, 1, 1])):
     error = [draw(st.sampled_from(range(len(ERROR_KINDS)))), draw(st.integers(0, 3)),
@@ -1384,6 +1447,18 @@ def _sweep_forms(tier):
                           ['r', 0, 0, 0, 0, 2, 0, 1], ['b', 0, 3, 0, 0, 23, 0],
                           ['b', 0, 6, 0, 1, 24, 0], ['b', 0, 7, 0, 1, 25, 1]]}
       cases.append({'pkg': {'init': [False] * 3, 'reexp': 0}, 'files': [single],
+                    'error': None, 'keep': False})
+  # decorator-registered objects (custom Gin name, registered method, nested class) configured by
+  # their Python path; and every parse variant of a root (file / string / list of statements)
+  for mod, form in ((1, 0), (1, 3), (4, 2), (0, 1)):
+    for variant in range(3):
+      stmts = [['b', 0, 10, 0, 0, 91, 0], ['b', 0, 11, 0, 1, 92, 0], ['b', 0, 13, 0, 0, 93, 0],
+               ['b', 0, 12, 0, 1, 94, 1], ['b', 0, 14, 0, 0, 95, 0], ['r', 0, 0, 0, 0, 6, 0, 1],
+               ['r', 0, 0, 1, 0, 7, 0, 1], ['b', 0, 0, 0, 0, 96, 0], ['b', 0, 3, 0, 1, 97, 1]]
+      cases.append({'pkg': {'init': [False] * 3, 'reexp': 0},
+                    'files': [{'parent': None, 'at': 0, 'str': variant == 1,
+                               'aslist': variant == 2, 'imports': [[mod, form, 0]],
+                               'stmts': stmts}],
                     'error': None, 'keep': False})
   # one file re-binds an alias: `import P.m1 as mm; mm.fn.x=..; import P.m2 as mm; mm.fn.x=..`
   # (the second module's objects are first registered through another spelling, which keeps the
